@@ -235,6 +235,37 @@ func checkC04(c *Ctx) {
 	}
 	flush()
 
+	// "copied or referenced in place" also across calls: default options (copying) on an object
+	// that was last used with WithCopyStrings(false); the input is overwritten afterwards and
+	// every string must still be the decoded sequence
+	for i, d := range escapeOffsetDocs(r, false) {
+		if i%7 != 0 {
+			continue
+		}
+		want := implParse(d, false, true, nil)
+		prev := implParse([]byte(`{"earlier":"call without copying","n":[1,"two"]}`), false, false, nil)
+		if want.Err || prev.Err {
+			continue
+		}
+		buf := append([]byte{}, d...)
+		got := implParseDefault(buf, false, prev.PJ)
+		for k := range buf {
+			buf[k] = '#'
+		}
+		a, e1 := dumpDoc(want.PJ)
+		var b string
+		var e2 error = fmt.Errorf("parse failed")
+		if !got.Err {
+			b, e2 = dumpDoc(got.PJ)
+		}
+		c.Ev.Count("default-options-after-nocopy", d, true)
+		if e1 != nil || e2 != nil || a != b {
+			c.Violate("document", "strings parsed with default options into an object last used without copying are not the decoded sequence once the input buffer is overwritten", "reuse-default-copy",
+				map[string]interface{}{"doc_hex": fmt.Sprintf("%x", d), "doc_text": printable(d), "got": trunc(b, 300), "want": trunc(a, 300), "error": fmt.Sprint(e2)})
+			break
+		}
+	}
+
 	// kernel-level correspondence: parseString with an explicit maxStringSize
 	c.strKernelCorrespondence()
 }
